@@ -115,11 +115,15 @@ func ruleC13For(c *Ctx, sub *ssa.Function, do, rr, pm *ssa.Call, first bool) {
 		c.obI("R13.1", rr, "reader-needs-a-consumer", guardedBy(rr, exactLk, found), "the reader runs only when a consumer was found; otherwise the call fails", "ReadResponse reachable without a consumer")
 		// … and a registered catch-all always gets the response: between its lookup and the reader nothing but its
 		// absence ends the call (not the status, not a header, not the body's size)
+		anyReader := func(in ssa.Instruction) bool {
+			ci, ok := in.(ssa.CallInstruction)
+			return ok && (in == ssa.Instruction(rr) || ifaceMethodCalled(ci.Common()) == "ReadResponse")
+		}
 		for _, r := range realReturns(sub) {
-			if !pathExists(sub, anyLk, r, nil, isOneOf(rr)) {
+			if !pathExists(sub, anyLk, r, nil, anyReader) {
 				continue
 			}
-			lost := pathExists(sub, anyLk, r, factBool(vIs(extractOf(anyLk, 1)), false), isOneOf(rr))
+			lost := pathExists(sub, anyLk, r, factBool(vIs(extractOf(anyLk, 1)), false), anyReader)
 			c.obI("R13.1", r, "catch-all-serves-every-response", !lost, "when the media type has no consumer of its own and a catch-all is registered, the reader is called with it — for every status code", "a return is reachable after the catch-all consumer was found, without the reader having been called")
 		}
 	} else if exactLk != nil && anyLk == nil && exactLk.CommaOk {
